@@ -28,6 +28,9 @@ on vectors (`≤` on `min` columns, `=` on `diff` columns), and a preorder `qle 
 * `goal_or_sound` — `Goal.__or__` only ever moves to a goal that blocks at least as much pruning
   (min ⊂ min_per_prime_factor ⊂ diff, max ⊂ max_per_prime_factor ⊂ diff).
 
+* `joined_proxy_counterexample` — without `obj_mono` the theorem fails: tracking a sum of per-term
+  proxies (what `_recombine_terms` does today) loses a front point.
+
 NOT proved (established per sampled template by the harness): that the goals which
 `make_evalable_objectives_from_formula` / `coalesce_symbols` derive with sympy satisfy `obj_mono`
 (each claimed monotonicity is checked exhaustively on the box, shared with C09), and that padding
@@ -260,5 +263,32 @@ theorem goal_or_comm (g1 g2 : Goal) : g1.or g2 = g2.or g1 := by
 
 example : Goal.min.or .minPpf = .minPpf ∧ Goal.min.or .max = .diff ∧ Goal.none.or .max = .max ∧
     Goal.maxPpf.or .max = .maxPpf ∧ Goal.minPpf.or .maxPpf = .diff := by decide
+
+/-! ## why `obj_mono` cannot be dropped: the joined-proxy counterexample -/
+
+/-- Two partial choices `A = false`, `B = true` (think `(s1, s2) = (1, 5)` and `(2, 1)`), two values of
+the symbol still to come (`r = false`: 1, `r = true`: 8), objectives (usage, energy) with
+usage `= s1 * (r + s2)` and energy `= 100 / r` rounded: -/
+def cexObj : Bool → Bool → Nat × Nat
+  | false, false => (6, 100)
+  | false, true => (13, 12)
+  | true, false => (4, 100)
+  | true, true => (18, 12)
+
+def cexLe (a b : Nat × Nat) : Prop := a.1 ≤ b.1 ∧ a.2 ≤ b.2
+
+/-- **Tracking the joined proxy `s1*s2 + s1` (the unknown factor replaced by 1) is not enough**:
+`B` beats `A` on it (4 < 6), so the Pareto filter keeps only `B` — and the vector `(13, 12)` that
+`A` reaches with `r = 8` is on the front of all complete assignments but is lost. The hypothesis
+of `tileprune_preserves_front` that fails is `obj_mono` (`usage B 8 = 18 > 13 = usage A 8`). -/
+theorem joined_proxy_counterexample :
+    (∃ c r, cexObj c r = (13, 12)) ∧
+    (¬ ∃ c r, cexLe (cexObj c r) (13, 12) ∧ ¬ cexLe (13, 12) (cexObj c r)) ∧
+    (¬ ∃ r, cexObj true r = (13, 12)) := by
+  refine ⟨⟨false, true, rfl⟩, ?_, ?_⟩
+  · rintro ⟨c, r, h1, h2⟩
+    cases c <;> cases r <;> simp [cexObj, cexLe] at h1 h2
+  · rintro ⟨r, h⟩
+    cases r <;> simp [cexObj] at h
 
 end AFV.C08
